@@ -386,6 +386,8 @@ func runVerify(patterns []string, opt runOpts) int {
 	return 0
 }
 
+var verboseModels = os.Getenv("GOVC_MODELS") != ""
+
 func printUnit(ur *UnitResult, verbose bool) {
 	fmt.Printf("== %s  (%d obligations, encode %.2fs, solve %.2fs)\n", ur.Name, len(ur.Queries), ur.EncodeS, ur.SolveS)
 	if ur.Err != "" {
@@ -409,7 +411,7 @@ func printUnit(ur *UnitResult, verbose bool) {
 			if q.Text != "" {
 				fmt.Printf("        clause: %s\n", q.Text)
 			}
-			if len(r.Model) > 0 {
+			if len(r.Model) > 0 && verboseModels {
 				var ks []string
 				for k := range r.Model {
 					ks = append(ks, k)
